@@ -58,6 +58,7 @@ type c16 struct {
 	loader  *SimLoader
 	files   map[string]*fileModel // canonical path (with extension) -> model; nil entry = deleted
 	vers    map[string]int        // version counter per path (never reused)
+	past    map[string]*fileModel // path#version -> what that version looked like
 	bases   []string
 	sets    []*setModel
 	ctrace  []Call
@@ -138,6 +139,10 @@ func (c *c16) setFile(path string, kind int, ref string) {
 	c.vers[path]++
 	f := &fileModel{ver: c.vers[path], kind: kind, ref: ref}
 	c.files[path] = f
+	if c.past == nil {
+		c.past = map[string]*fileModel{}
+	}
+	c.past[fmt.Sprintf("%s#%d", path, f.ver)] = f
 	c.mem.Set(path, f.content(path))
 }
 
@@ -217,11 +222,11 @@ func (c *c16) names() []string {
 	for _, b := range c.bases {
 		out = append(out, b)
 	}
+	// names that already end in a configured extension (the file may live under name + another one)
 	for _, b := range c.bases[:2] {
 		for _, e := range c.exts {
 			if e != "" {
 				out = append(out, b+e)
-				break
 			}
 		}
 	}
@@ -416,6 +421,22 @@ func (c *c16) opExec(sm *setModel, t *jet.Template, name string) {
 		sm.execClean[t] = allFound
 		c.env.Stat("probe:repeat_execute_of_fully_cached_template", int64(boolInt(len(calls) == 0 && err == nil)))
 	}
+	// a run-time reference whose target the loader can serve must be rendered: a lookup that failed
+	// earlier (the file did not exist yet) is not remembered. The executed template is identified by
+	// its own version marker (it may be an older, cached version of the file).
+	if err == nil && !faultDuringExec {
+		if m := reMarker.FindStringSubmatch(buf.String()); m != nil && strings.HasPrefix(buf.String(), m[0]) {
+			if top := c.past[m[1]+"#"+m[2]]; top != nil && (top.kind == 1 || top.kind == 4) {
+				ref := top.ref
+				if !strings.HasPrefix(ref, "/") {
+					ref = Normalize(Dir(m[1]) + "/" + ref)
+				}
+				if c.loadable(ref, 0) && !strings.Contains(buf.String()[len(m[0]):], "["+ref) {
+					c.env.Violate("retry", c.mode(sm)+":runtime-lookup-not-retried", "%s: the template refers to %s at run time (%s), the loader can serve it, but it was not rendered: %q\nhistory: %s", op, ref, []string{"", "include", "", "", "includeIfExists"}[top.kind], buf.String(), strings.Join(c.hist, " "))
+				}
+			}
+		}
+	}
 	if sm.dev && err == nil {
 		// the top file was fetched by the GetTemplate just before; what is judged here is what
 		// Execute itself loads (run-time includes): they must be current
@@ -596,6 +617,9 @@ func RunC16(env *sim.Env) {
 			ref := "/base"
 			if kind == 1 {
 				kind, ref = includeTarget(t, b)
+			}
+			if len(nonEmpty) > 0 && t.Choose(6) == 5 {
+				p += nonEmpty[t.Choose(len(nonEmpty))] // e.g. /a.html.jet: found by requesting /a.html
 			}
 			c.setFile(p, kind, ref)
 			c.hist = append(c.hist, fmt.Sprintf("Set(%s#%d)", p, c.vers[p]))
